@@ -16,6 +16,19 @@ ORACLES on the real code (independent of tasks.py / shear.py and of the model):
   independence  value of a key under request list A (one order) and B (another order, other keys, duplicates) identical
   isotropic     equal axial strains: c11=c22=c33, c12=c13=c23, c44=c55=c66=(c11-c12)/2, other 12 zero
   permutation   the six relabellings of the axes permute the assembled tensor
+  orders        ONE key set presented in several orders (as given, reversed, rotated, shuffled): every assembled value identical
+
+Streams added with the translator tie of tasks.py (tools/gens/tasks_src.py): what the tie showed was exercised only by chance —
+  hash-collide  non-cubic strain fractions: c11/c22/c33 and the rotated-frame c_i'i' tasks of the shear keys are DISTINCT tasks whose
+                `__hash__` values all coincide (e_i ^ e_i cancels); assembly / orders oracles on requests made of exactly these
+  same-label    a shear key requested together with the crystal-frame keys that carry the SAME LABELS as its rotated-frame
+                dependencies (c44 with c22, c33, c23 …): two tasks per label, different strains; assembly / independence / orders
+  params        the real `__eq__` / `__hash__` on pairs of parameters (identical, equal fractions from scaled strains, below the
+                tolerance, 1e-9 … 1e-3 apart, other key, other frame) against the model relation (hand-written AND read off the
+                translated decision list); hash observations (collisions among unequal, equal-but-different-hash) are counted
+  store         histories of `store[(strain, key)] = v` / `store[(strain, key)]` / `store[params]` on two real
+                `PhononContributionTaskResults` against the model's stores (first equal entry, per instance, StopIteration)
+and the translated work-list program (`c04.resolve_src`) is run next to the hand-written model on every resolve trace.
 """
 from __future__ import annotations
 
@@ -229,6 +242,13 @@ def correspond(ctx, obs, eig, res: Result, short):
     if r == "out-of-fuel":
         res.disagreements.append(Disagreement("c04.resolve", short, f"{len(obs['tasks'])} tasks", "out-of-fuel"))
         return ok
+    rs = ctx.driver.ask([{"op": "c04.resolve_src", "strain": strain, "keys": keys, "eig": eig, **tolw}])[0]
+    if rs == "out-of-fuel" or not isinstance(rs, dict) or rs.get("tasks") != r.get("tasks") or rs.get("edges") != r.get("edges"):
+        res.disagreements.append(Disagreement("c04.resolve_src", short, "hand-written model: %d tasks" % len(r.get("tasks", [])),
+                                              rs if isinstance(rs, str) else "translated program: %d tasks" % len(rs.get("tasks", [])),
+                                              "the work-list program translated from tasks.py differs from Tasks.resolve"))
+    else:
+        res.distribution["translated_program_runs"] += 1
     bij, note = match_tasks(obs, r)
     if bij is None:
         res.disagreements.append(Disagreement("c04.resolve.tasks", short,
@@ -461,6 +481,31 @@ def oracle(payload, obs_cache=None):
                     return out
         return out
 
+    if check == "orders":
+        keys = [tuple(k) for k in payload["keys"]]
+        runs = []
+        for perm in payload["orders"]:
+            o = real(strain, [keys[i] for i in perm])
+            if "raised" in o:
+                return [("resolve/calculate raised", o["raised"], "values", "orders:raised")]
+            runs.append(o)
+        scale = tensor_scale([v for o in runs for v in o["store_iso"] + o["store_adi"]])
+        for which in ("iso", "adi"):
+            for n, o in enumerate(runs[1:], 1):
+                for k in sorted(set(keys)):
+                    if k not in o[which] or k not in runs[0][which]:
+                        out.append(("requested key without a value", list(k), "a value", "orders:missing")); return out
+                    err = float(numpy.max(numpy.abs(o[which][k] - runs[0][which][k])))
+                    if numpy.isfinite(err): STATS["max_independence_err_rel"] = max(STATS["max_independence_err_rel"], err / scale)
+                    if not err <= ORACLE_TOL * scale:
+                        out.append(("value of a component depends on the order of the request list",
+                                    {"key": list(k), "order_0": [list(keys[i]) for i in payload["orders"][0]][:21],
+                                     "order_n": [list(keys[i]) for i in payload["orders"][n]][:21],
+                                     "value_0": runs[0][which][k].reshape(-1)[:4].tolist(), "value_n": o[which][k].reshape(-1)[:4].tolist()},
+                                    {"max_abs_diff": err, "tol": ORACLE_TOL * scale}, f"orders:{which}"))
+                        return out
+        return out
+
     if check == "isotropic":
         keys = [tuple(k) for k in payload["keys"]]
         obs = real(strain, keys)
@@ -615,6 +660,7 @@ def gen_cases(ctx: Ctx):
         s = numpy.tile(e, (1, 3))
         ks = [list(KEYS21[i]) for i in rng.permutation(21)]
         cases.append({"check": "isotropic", "strain": s.tolist(), "keys": ks, "stub": stub})
+    cases.extend(gen_tie_cases(ctx))
     perms = [p for p in itertools.permutations((1, 2, 3))]
     for n in range(4 if th else 1):
         stub = gen_stub(rng)
@@ -623,6 +669,224 @@ def gen_cases(ctx: Ctx):
             cases.append({"check": "permutation", "strain": s.tolist(), "perm": list(p), "stub": stub,
                           "keys": [list(KEYS21[i]) for i in rng.permutation(21)]})
     return cases
+
+
+def noncubic_strain(rng, ntv):
+    """positive strains whose three fractions are pairwise at least 2e-2 apart in every volume row (no accidental coincidence of
+    c11/c22/c33 or of a rotated-frame task with a crystal-frame one)"""
+    while True:
+        s = gen_strain(rng, ntv, int(rng.integers(0, 3)))
+        f = s / s.sum(axis=1, keepdims=True)
+        m = (f[:, 1] + f[:, 2]) / 2, (f[:, 0] + f[:, 2]) / 2, (f[:, 0] + f[:, 1]) / 2
+        vals = [f[:, 0], f[:, 1], f[:, 2], *m]
+        if all(float(numpy.min(numpy.abs(a - b))) > 2e-2 for a, b in itertools.combinations(vals[:3], 2)) and \
+                all(float(numpy.min(numpy.abs(vals[i] - vals[3 + i]))) > 1e-2 for i in range(3)):
+            return s
+
+
+def order_variants(rng, n, count):
+    base = list(range(n))
+    outs = [base, base[::-1], base[n // 2:] + base[:n // 2]]
+    while len(outs) < count:
+        outs.append([int(i) for i in rng.permutation(n)])
+    return outs[:count]
+
+
+def rotated_labels(key):
+    """labels (Voigt pairs) of the rotated-frame and of the original-frame dependencies of a shear key, from the real shear class"""
+    from cij.core.phonon_contribution.shear import ShearElasticModulusPhononContribution as S
+    _, c_ = _cij()
+    o = S(numpy.ones((1, 3)), c_(*key))
+    rot = sorted({vkey(k) for k in o.get_modulus_keys_rotated()})
+    orig = sorted({vkey(k) for k in o.get_modulus_keys()})
+    return rot, orig
+
+
+def gen_tie_cases(ctx: Ctx):
+    """requests aimed at what the translator tie of tasks.py shows: hash collisions of distinct longitudinal tasks, one label in two
+    frames, and one key set in several orders"""
+    rng, th = ctx.rng, ctx.thorough()
+    cases = []
+    LONG = [(1, 1), (2, 2), (3, 3)]
+    # hash-collide: longitudinal keys + shear keys whose rotated-frame dependencies are longitudinal tasks at another strain
+    for n in range(8 if th else 2):
+        stub = gen_stub(rng)
+        s = noncubic_strain(rng, stub["ntv"])
+        sh = [SHEAR15[i] for i in rng.choice(15, size=int(rng.integers(1, 4)), replace=False)]
+        ks = [list(k) for k in LONG + [tuple(int(x) for x in k) for k in sh]]
+        ks = [ks[i] for i in rng.permutation(len(ks))]
+        cases.append({"check": "assembly", "strain": s.tolist(), "keys": ks, "stub": stub, "tie": "hash-collide"})
+        cases.append({"check": "orders", "strain": s.tolist(), "keys": ks, "orders": order_variants(rng, len(ks), 3), "stub": stub,
+                      "tie": "hash-collide"})
+    stub = gen_stub(rng)
+    cases.append({"check": "assembly", "strain": noncubic_strain(rng, stub["ntv"]).tolist(), "keys": [list(k) for k in LONG], "stub": stub,
+                  "tie": "hash-collide"})
+    # same-label: a shear key with the crystal-frame keys labelled like its rotated-frame dependencies
+    pool = list(SHEAR15) if th else [(4, 4), (1, 4)] + [SHEAR15[i] for i in rng.choice(15, size=3, replace=False)]
+    for K in dict.fromkeys(tuple(int(x) for x in k) for k in pool):
+        rot, orig = rotated_labels(K)
+        labels = [k for k in rot if k != K]
+        if not labels: continue
+        stub = gen_stub(rng)
+        s = noncubic_strain(rng, stub["ntv"])
+        req = [list(K)] + [list(k) for k in labels]
+        variants = [req, req[::-1], req[1:] + req[:1]]
+        v = variants[int(rng.integers(0, 3))]
+        cases.append({"check": "assembly", "strain": s.tolist(), "keys": v, "stub": stub, "tie": "same-label"})
+        cases.append({"check": "independence", "strain": s.tolist(), "keysA": v, "keysB": [list(K)], "stub": stub, "tie": "same-label"})
+        cases.append({"check": "independence", "strain": s.tolist(), "keysA": v, "keysB": [list(k) for k in labels], "stub": stub,
+                      "tie": "same-label"})
+        if th or K in ((4, 4), (1, 4)):
+            cases.append({"check": "orders", "strain": s.tolist(), "keys": req, "orders": order_variants(rng, len(req), 3), "stub": stub,
+                          "tie": "same-label"})
+    # one key set, several orders (all 21 and random subsets)
+    for n in range(6 if th else 2):
+        stub = gen_stub(rng)
+        s = gen_strain(rng, stub["ntv"])
+        ks = [list(k) for k in KEYS21] if n == 0 else gen_keys(rng)
+        cases.append({"check": "orders", "strain": s.tolist(), "keys": ks, "orders": order_variants(rng, len(ks), 4 if th else 3),
+                      "stub": stub, "tie": "orders"})
+    return cases
+
+
+# ----------------------------------------------------------------------------- task parameters and result stores, directly
+def _enc_param(s, k):
+    return {"strain": enc(numpy.array(s, dtype=float)), "key": list(k)}
+
+
+def perturbed(rng, s, delta):
+    """a strain field whose FRACTIONS differ from those of `s` by about `delta` (relative) in every column"""
+    w = numpy.array([1.0 + delta, 1.0 - delta * 0.5, 1.0 + delta * 0.25])[[int(i) for i in rng.permutation(3)]]
+    return s * w[None, :]
+
+
+def params_stream(ctx: Ctx, res: Result):
+    """the real `PhononContributionTaskParams.__eq__` / `__hash__` against the model relation on generated pairs"""
+    from cij.core.tasks import PhononContributionTaskParams as P
+    from cij.core.phonon_contribution.shear import ShearElasticModulusPhononContribution as S
+    _, c_ = _cij()
+    rng, th = ctx.rng, ctx.thorough()
+    tol = measured_tol()
+    tolw = {"rtol": f2b(tol["rtol"]), "atol": f2b(tol["atol"])}
+    D = res.distribution["params"]
+    for n in range(24 if th else 6):
+        ntv = int(rng.integers(1, 5))
+        s = noncubic_strain(rng, ntv) if n % 2 == 0 else gen_strain(rng, ntv)
+        K = SHEAR15[int(rng.integers(0, 15))]
+        with numpy.errstate(all="ignore"):
+            srot = numpy.array(S(s, c_(*K)).strain_rotated, dtype=float)
+        fields = [("same", s), ("copy", s.copy()), ("scaled", s * 1.75), ("rotated", srot)]
+        for d in (1e-13, 1e-9, 1e-6, 1e-3):
+            fields.append((f"d={d:g}", perturbed(rng, s, d)))
+        pool = [(name, f, k) for name, f in fields for k in KEYS21]
+        pairs = []
+        for _ in range(80 if th else 40):
+            a = pool[int(rng.integers(0, len(pool)))]
+            kind = int(rng.integers(0, 4))
+            if kind == 0: b = (a[0], a[1].copy(), a[2])                                  # identical arrays
+            elif kind == 1: b = pool[int(rng.integers(0, len(pool)))]                    # anything
+            elif kind == 2:                                                              # same key, another field
+                nm, f = fields[int(rng.integers(0, len(fields)))]; b = (nm, f, a[2])
+            else:                                                                        # same field, another key of the same calc type
+                same = [k for k in KEYS21 if (k[1] >= 4) == (a[2][1] >= 4) and ((k[0] == k[1]) == (a[2][0] == a[2][1]) or k[1] >= 4)]
+                b = (a[0], a[1], same[int(rng.integers(0, len(same)))])
+            pairs.append((a, b))
+        ans = ctx.driver.ask([{"op": "c04.eq", **tolw, "pairs": [{"a": _enc_param(a[1], a[2]), "b": _enc_param(b[1], b[2])} for a, b in pairs]}])[0]
+        for (a, b), m in zip(pairs, ans):
+            pa, pb = P.create(a[1], c_(*a[2])), P.create(b[1], c_(*b[2]))
+            try:
+                got = bool(pa == pb)
+            except Exception as ex:
+                got = f"raised {type(ex).__name__}"
+            res.evaluations += 1
+            D["pairs"] += 1
+            short = {"a": {"field": a[0], "key": list(a[2])}, "b": {"field": b[0], "key": list(b[2])}, "strain": s.tolist(), "shear_key": list(K)}
+            if got is not m[0] or got is not m[1]:
+                res.disagreements.append(Disagreement("c04.eq", short, got, {"hand_written": m[0], "translated": m[1]},
+                                                      "PhononContributionTaskParams.__eq__ vs the model relation"))
+                continue
+            res.traces_validated += 1
+            if got is True: D["equal"] += 1
+            try:
+                ha, hb = hash(pa), hash(pb)
+            except Exception as ex:
+                res.disagreements.append(Disagreement("c04.hash", short, f"raised {type(ex).__name__}", "a hash")); continue
+            identical = a[2] == b[2] and all(numpy.array_equal(numpy.asarray(x), numpy.asarray(y)) for x, y in zip(
+                (pa.params if a[2][1] < 4 else pa.params[:1]), (pb.params if b[2][1] < 4 else pb.params[:1])))
+            if got is True and identical and ha != hb:
+                res.disagreements.append(Disagreement("c04.hash", short, "equal parameters with identical arrays, different hashes",
+                                                      "equal hashes (c04_glue_is_source_hash)"))
+            if got is True and ha != hb: D["equal_but_hash_differs"] += 1
+            if got is False and ha == hb:
+                D["unequal_but_hash_equal"] += 1
+                if a[2][0] == a[2][1] <= 3 and b[2][0] == b[2][1] <= 3: D["unequal_longitudinal_hash_equal"] += 1
+            if got is False and a[0].startswith("d=") != b[0].startswith("d=") and a[2] == b[2]: D["near_pairs_unequal"] += 1
+
+
+def store_stream(ctx: Ctx, res: Result):
+    """histories on two real PhononContributionTaskResults against the model's stores"""
+    from cij.core.tasks import PhononContributionTaskParams as P, PhononContributionTaskResults as Rs
+    from cij.core.phonon_contribution.shear import ShearElasticModulusPhononContribution as S
+    _, c_ = _cij()
+    rng, th = ctx.rng, ctx.thorough()
+    tol = measured_tol()
+    tolw = {"rtol": f2b(tol["rtol"]), "atol": f2b(tol["atol"])}
+    D = res.distribution["store"]
+    for n in range(20 if th else 5):
+        ntv = int(rng.integers(1, 4))
+        s = noncubic_strain(rng, ntv)
+        K = SHEAR15[int(rng.integers(0, 15))]
+        with numpy.errstate(all="ignore"):
+            srot = numpy.array(S(s, c_(*K)).strain_rotated, dtype=float)
+        far = perturbed(rng, s, 0.2)
+        fields = {"orig": s, "rot": srot, "far": far}
+        stores = [Rs(), Rs()]
+        present = [[], []]                      # (field name, key) already set per store: never set an equal key twice
+        ops, real_out = [], []
+        for _ in range(int(rng.integers(12, 30))):
+            st = int(rng.integers(0, 2))
+            fname = ("orig", "rot", "far")[int(rng.integers(0, 3))]
+            k = KEYS21[int(rng.integers(0, 21))]
+            f = fields[fname]
+            if rng.random() < 0.45:
+                pnew = P.create(f, c_(*k))
+                if any(pnew == P.create(fields[fn], c_(*kk)) for fn, kk in present[st]):
+                    continue
+                v = float(rng.normal())
+                if rng.random() < 0.5: stores[st][(f, c_(*k))] = numpy.array([v])
+                else: stores[st][pnew] = numpy.array([v])
+                present[st].append((fname, k))
+                ops.append({"st": st, "p": _enc_param(f, k), "v": f2b(v)})
+                D["sets"] += 1
+            else:
+                if present[st] and rng.random() < 0.7:          # mostly keys that were stored (in THIS store or in the other one)
+                    src_ = present[st] if rng.random() < 0.75 or not present[1 - st] else present[1 - st]
+                    fname, k = src_[int(rng.integers(0, len(src_)))]
+                    f = fields[fname]
+                variant = int(rng.integers(0, 3))
+                g = f.copy() if variant == 0 else (perturbed(rng, f, 1e-13) if variant == 1 else f * 2.0)
+                try:
+                    got = stores[st][(g, c_(*k))] if rng.random() < 0.5 else stores[st][P.create(g, c_(*k))]
+                    got = float(numpy.asarray(got).reshape(-1)[0])
+                except StopIteration:
+                    got = "missing"
+                except Exception as ex:
+                    got = f"raised {type(ex).__name__}"
+                real_out.append(got)
+                ops.append({"st": st, "p": _enc_param(g, k)})
+                D["gets"] += 1
+                D["gets_found"] += int(isinstance(got, float))
+        ans = ctx.driver.ask([{"op": "c04.store", **tolw, "ops": ops}])[0]
+        model_out = [a if isinstance(a, str) else float(numpy.asarray(dec_arr([a])).reshape(-1)[0]) for a in ans]
+        res.evaluations += 1
+        if model_out != real_out:
+            idx = next((i for i, (x, y) in enumerate(zip(real_out, model_out)) if x != y), None)
+            res.disagreements.append(Disagreement("c04.store", {"strain": s.tolist(), "shear_key": list(K), "first_differing_get": idx,
+                                                                "ops": len(ops)}, real_out[:40], model_out[:40],
+                                                  "PhononContributionTaskResults vs the model's stores"))
+        else:
+            res.traces_validated += 1
+            D["histories_agreeing"] += 1
 
 
 def evaluate(ctx: Ctx, cases, res: Result, with_model=True):
@@ -634,6 +898,9 @@ def evaluate(ctx: Ctx, cases, res: Result, with_model=True):
         cache = {}
         res.distribution["checks"][p["check"]] = res.distribution["checks"].get(p["check"], 0) + 1
         if p.get("near"): res.distribution["near_coincident_strain_cases"] += 1
+        if p.get("tie"):
+            res.distribution["tie_streams"][p["tie"]] = res.distribution["tie_streams"].get(p["tie"], 0) + 1
+        if p["check"] == "orders": res.distribution["order_variants_run"] += len(p["orders"])
         try:
             fails = oracle(p, cache)
         except Exception as ex:
@@ -735,7 +1002,11 @@ def new_result():
     res = Result()
     res.distribution = {"checks": {}, "real_runs": 0, "tasks_max": 0, "tasks_total": 0, "edges_total": 0,
                         "request_sizes": {}, "requests_with_duplicates": 0, "identity_numbering_runs": 0,
-                        "near_coincident_strain_cases": 0}
+                        "near_coincident_strain_cases": 0, "translated_program_runs": 0, "order_variants_run": 0,
+                        "tie_streams": {},
+                        "params": {"pairs": 0, "equal": 0, "near_pairs_unequal": 0, "unequal_but_hash_equal": 0,
+                                   "unequal_longitudinal_hash_equal": 0, "equal_but_hash_differs": 0},
+                        "store": {"sets": 0, "gets": 0, "gets_found": 0, "histories_agreeing": 0}}
     return res
 
 
@@ -746,10 +1017,15 @@ def run(ctx: Ctx) -> Result:
                 "volume, unnormalised, two-axes-equal, all-equal), a request list (all 21 singletons; all 210 pairs in thorough; random "
                 "subsets, orders, duplicates) and a random stub calculator; every real resolve+calculate run inside a case is also a "
                 "correspondence trace; distinct_nontrivial = distinct (strain field, request list) real runs that created at least one "
-                "shear task (so the scheduler had dependencies to order)")
+                "shear task (so the scheduler had dependencies to order); the `params` stream adds one evaluation per compared pair of "
+                "real task parameters (`__eq__`, `__hash__`), the `store` stream one per history on two real result stores; clause `orders` "
+                "runs one key set in 3-4 orders; counts of the targeted streams (hash-collide, same-label, orders, params, store) are in "
+                "input_distribution")
     for p in ctx.corpus():
         evaluate(ctx, [p["input"] if "input" in p else p], res)
     measure_contracts(res, ctx.rng)
+    params_stream(ctx, res)
+    store_stream(ctx, res)
     evaluate(ctx, gen_cases(ctx), res)
     sigs = res.extra.pop("_sigs", set())
     res.distinct_nontrivial = sum(1 for (s, ks) in sigs if any(k[1] >= 4 for k in ks))
